@@ -148,6 +148,21 @@ CHECKS = {
         note=TB + ' RNG quality and exact probabilities (float rounding of p) are tested statistically, not proved (C05 covers the '
                   'sampling primitives).',
         design='§4 C16'),
+    'C17': dict(
+        technique='Coq proofs of the graph theory behind graphlike minimality (cycle lemma, simple cycles, state-path lower bound, '
+                  'BFS optimality) + exhaustive-minimum oracle on the real searches and WCNF export',
+        text='Proof: cycle_lemma, simple_exists, graphlike_lower_bound (any undetectable logical error of graph edges yields a path of '
+             'the search\'s (active, held, mask) state graph of length <= |E|-1 from a non-zero-mask edge in either orientation) and '
+             'bfs_nearest (the queue BFS as written returns a nearest goal). Tie O: on random small models (boundary and parallel edges, '
+             'cancelling duplicate targets, separators, zero-probability errors, 70 observables, repeat/shift) the graphlike search and '
+             'the untruncated hypergraph search must return valid error sets of exactly the exhaustive minimum size and fail only when '
+             'none exists; truncated searches must return valid sets; the unweighted WCNF must be well formed and have the exhaustive '
+             'optimum equal to the minimum number of errors.',
+        note=TB + ' Graph::from_dem and the hypergraph search are not modelled in Coq; the instantiation of bfs_nearest with the '
+                  'search\'s successor function is not assembled; the weighted WCNF is only checked for well-formedness. With '
+                  'ignore_ungraphlike_errors the implementation skips errors that carry a suggested decomposition; that reading is '
+                  'taken as the definition.',
+        design='§4 C17'),
 }
 
 PENDING = 'check not yet built in this round (see DESIGN.md §7 phasing); the Coq model for it is planned, not claimed'
